@@ -1429,6 +1429,9 @@ impl Translator {
         mono: &MonomorphEnv,
         st: &mut TranslatorState,
     ) {
+        // the arguments were translated last and may sit on other lines, or (default values) in
+        // the callee's file: the call itself is at the call site
+        self.update_current_file_and_lineno(st, func_node.clone());
         match decl {
             Declaration::Var(node) => {
                 // assume it's a function object
